@@ -25,10 +25,24 @@ import (
 	"time"
 )
 
-const (
-	VerifDir = "/verif"
-	cellSize = 1 << 16
-)
+const cellSize = 1 << 16
+
+// VerifDir is the root of the verification tree (evidence, ledger, replays, build
+// scratch); bin/check exports VERIF_DIR so that a snapshot of the tree works in place.
+var VerifDir = func() string {
+	if d := os.Getenv("VERIF_DIR"); d != "" {
+		return d
+	}
+	return "/verif"
+}()
+
+// RepoDir is the plenc tree under verification (default /repo).
+var RepoDir = func() string {
+	if d := os.Getenv("VERIF_REPO"); d != "" {
+		return d
+	}
+	return "/repo"
+}()
 
 // Prop describes one property check.
 type Prop struct {
